@@ -862,7 +862,7 @@ def attr_of_param(p):
 
 class Reader:
     HELPERS = {   # text / child helpers interpreted by model/XmlCodec.v (dec_leaf_elem, dec_c): audited fingerprints
-        "_str_to_bool": "f6e941c7da1c", "_get_child_mandatory": "6590f40ea8df", "_get_all_children_expect_tag": "120c6101bfb9",
+        "_str_to_bool": "cd0e5ed5e9bf", "_get_child_mandatory": "6590f40ea8df", "_get_all_children_expect_tag": "120c6101bfb9",
         "_get_text_or_none": "a91fdf654bd6", "_get_text_or_empty_string_or_none": "e831e8183f80", "_get_text_mapped_or_none": "f91e62c9ccc5",
         "_get_text_mandatory": "f842d4184b05", "_get_text_mandatory_mapped": "628bfe3ddf41", "_failsafe_construct": "217da3c5d661|de1d4906e28f",
         "_failsafe_construct_mandatory": "08310a99d36d", "_failsafe_construct_multiple": "1051f725148e",
@@ -909,6 +909,11 @@ class Reader:
             if name not in self.fns:
                 raise TranslationError(f"helper {name} missing")
             self.strs[name] = self._pin(self.fns[name], fp, "helper")
+        # _str_to_bool (audited 4767718): literal = string.strip(" \t\n\r"); ValueError unless literal in
+        # ("true", "false", "1", "0"); result literal in ("true", "1")  ==  model/XmlCodec.v xs_bool
+        if self.strs["_str_to_bool"] != [" \t\n\r", "true", "false", "1", "0", "true", "1"]:
+            raise TranslationError(f"_str_to_bool literals changed: {self.strs['_str_to_bool']!r} "
+                                   f"(model/XmlCodec.v xs_bool interprets the audited set)")
         for name, fp in self.METHODS.items():
             if name not in self.methods:
                 raise TranslationError(f"method {name} missing")
